@@ -1,2 +1,25 @@
-(* C01 (statements follow) *)
-From GJS Require Import Base Regex Schema GoType Gen.
+(* C01 - every emitted file is valid, self-contained Go that compiles.
+   Statements only; every proof is `exact <lemma>`; Print Assumptions under each.
+   Go's type checker, gofmt and the emitter are not formalised here, so "compiles" is decided by
+   the Go toolchain itself on every generated program of the correspondence families (gofmt-stable,
+   go build, go vet).  What the Coq development proves of C01 are the classes the model can
+   express: identifiers are valid and exported (C14_valid / C14_exported), the validators of a
+   struct only name fields the struct has and a required check is only attached to a declared key
+   (below), default literals are assignable to their field type (default_val is defined), and
+   --only-models leaves no method behind that would need an import (C16).  Partial. *)
+From GJS Require Import Base Schema GoType Gen GenP.
+
+(* every property yields a field carrying its key; every validator of the method comes from one of those fields *)
+Theorem C01_fields_and_validators : forall s b0 infos t b,
+  build_struct s b0 infos = Done (t, b) ->
+  exists fs plan, t = TStruct [] fs (Some plan) /\
+    (forall i, In i infos -> In (fst (fst i)) fs) /\
+    (forall i, In i infos -> snd (fst i) = true -> In (VRequired (f_json (fst (fst i)))) plan) /\
+    (forall i v, In i infos -> In v (snd i) -> In v plan).
+Proof. exact build_struct_shape. Qed.
+Print Assumptions C01_fields_and_validators.
+
+(* one field per property, no more, no fewer (names are then made distinct by the suffixing of C14) *)
+Theorem C01_one_field_per_property : forall ids, length (field_names ids) = length ids.
+Proof. exact field_names_length. Qed.
+Print Assumptions C01_one_field_per_property.
